@@ -29,9 +29,9 @@
 #include <vector>
 
 #define MAXP (1 << 17)
-#define NCONF (1 << 14)
+#define NCONF (1 << 16)
 #define OBSCAP 4096
-#define NACC (1 << 14)
+#define NACC (1 << 18)
 #define ARENA_SIZE (64u << 20)
 
 enum Result { RES_OK = 0, RES_CHECK = 1, RES_INVARIANT = 2, RES_DEADLOCK = 3, RES_LIVELOCK = 4, RES_DIVERGED = 5, RES_INTERNAL = 6 };
@@ -238,7 +238,7 @@ bool add_set(uintptr_t* tab, uintptr_t a, int* count) {
 
 void record_access(uintptr_t a, bool write) {
     unsigned h = (unsigned)(a >> 2) & (NACC - 1);
-    for (int k = 0; k < 512; k++) {
+    for (int k = 0; k < 8192; k++) {
         int idx = (h + k) & (NACC - 1);
         Acc& e = g_acc[idx];
         if (e.addr == 0) { e.addr = a; g_acc_used[g_nacc++] = idx; }
